@@ -39,6 +39,9 @@ func Make[T any](n ...int) *Chan[T] {
 	return c
 }
 
+// Obj exposes the channel's happens-before object (timers share it).
+func (c *Chan[T]) Obj() *rt.Obj { c.touch(); return &c.o }
+
 func ZeroOf[T any](c *Chan[T]) (z T) { return }
 
 func (c *Chan[T]) touch() {
